@@ -323,6 +323,13 @@ Proof.
   - intros j N. rewrite cell_set_neq by (intros E; apply N; left; assumption). auto.
 Qed.
 
+Lemma Inv_delete_many es : forall w, Inv w -> Inv (fst (sl_delete_many w es)).
+Proof.
+  induction es as [|e r IH]; intros w HI; cbn [sl_delete_many]; [assumption|].
+  pose proof (Inv_delete w e HI) as X. destruct (sl_delete w e) as [w' ok]. cbn [fst] in X.
+  destruct ok; [apply IH; assumption | assumption].
+Qed.
+
 Lemma Inv_edelete w e : Inv w -> Inv (fst (sl_edelete w e)).
 Proof.
   intros HI. unfold sl_edelete, l_kill_def. destruct (l_is_alive (sl_life w) e) eqn:A; cbn [fst].
